@@ -1,4 +1,5 @@
 """C09 — zip: the k-th output is the row of k-th items; ends with the shortest input."""
+from ..facts import base
 from .. import families, scan
 from ..families import short, ctor_fields, self_path, sub_struct_pos, adt_field
 from ..terms import simple_name
@@ -6,8 +7,8 @@ from . import racelike, flow, common, c01, c02, c03, joinlike
 
 PROPERTY = "C09"
 LEVEL = "other"
-CONFIGS_QUICK = ["std", "alloc"]
-CONFIGS_THOROUGH = ["std", "alloc", "core"]
+CONFIGS_QUICK = ["std", "alloc", "std-rel"]
+CONFIGS_THOROUGH = ["std", "alloc", "core", "std-rel", "alloc-rel", "core-rel"]
 EXPLANATION = (
     "Path and data-flow rules on the MIR of every zip poll_next body (tuple arities 1-12, array, Vec): (ROW) on an input's "
     "Ready(Some) edge its item - and nothing else - is stored exactly once in the row slot of the input's own position and the "
@@ -55,7 +56,7 @@ def run(ctx):
                 c02.rule_polldrop(ctx, M, u)
         n = joinlike.rule_ext(ctx, M, "stream::stream_ext::StreamExt", "zip", "zip", "C09.EXT")
         ctx.require(n >= 1, "StreamExt::zip")
-        na = 1 if cfg == "core" else 2
+        na = 1 if base(cfg) == "core" else 2
         ctx.floor("C09.ROW", cfg, 78 + na)
         ctx.floor("C09.EMIT", cfg, 3 * (12 + na) + 78 + na)
         ctx.floor("C09.END", cfg, 78 + na + 12 + na)
